@@ -60,7 +60,8 @@ func (sel *Selection) findSlice(segs []*Path) (*Selection, error) {
 			}
 			copy := *p
 			copy.parent = p
-			copy.Path = segs[i]
+			// segs are relative to where the search started, the selection's path is not
+			copy.Path = &Path{Parent: p.Path, Meta: segs[i].Meta}
 			return &copy, nil
 		} else if meta.IsList(segs[i].Meta) || meta.IsContainer(segs[i].Meta) {
 			r := &ChildRequest{
